@@ -14,8 +14,19 @@ from .core import MachineryFailure, NCPU, sha
 
 # ------------------------------------------------------------------ target specs
 
-def spec(kind, name, options=None, sanitize=False, std=None, frac=1.0, flags=()):
-    return {"kind": kind, "name": name, "options": dict(options or {}), "sanitize": sanitize, "std": std, "frac": frac, "flags": list(flags)}
+def spec(kind, name, options=None, sanitize=False, std=None, frac=1.0, flags=(), files=None):
+    return {"kind": kind, "name": name, "options": dict(options or {}), "sanitize": sanitize, "std": std, "frac": frac, "flags": list(flags),
+            "files": dict(files or {})}
+
+
+# a user-supplied container for variable-length arrays (documented C++ options variable_array_type_include / _template)
+CUSTOM_VLA_HEADER = """#pragma once
+#include <vector>
+namespace vf {
+template <typename T> struct Vec : public std::vector<T> { using std::vector<T>::vector; };
+}
+"""
+CUSTOM_VLA_OPTIONS = {"variable_array_type_include": '"vf_vec.hpp"', "variable_array_type_template": "vf::Vec<{TYPE}>"}
 
 
 def _build(job):
@@ -29,7 +40,7 @@ def _build(job):
         if sp["kind"] == "c":
             tg = CTarget(scratch, types, options=sp["options"], sanitize=sp["sanitize"], uid=uid, extra_flags=[f.replace("@NS@", "vc" + uid) for f in sp.get("flags", ())])
         else:
-            tg = CppTarget(scratch, types, options=sp["options"], sanitize=sp["sanitize"], std=sp["std"] or "c++14", uid=uid)
+            tg = CppTarget(scratch, types, options=sp["options"], sanitize=sp["sanitize"], std=sp["std"] or "c++14", uid=uid, files=sp.get("files"))
         return ("ok", tg, time.time() - t0)
     except MachineryFailure as e:
         return ("fail", str(e), time.time() - t0)
@@ -441,7 +452,8 @@ def std_specs(ctx, sanitize=False, variants=True, cpp=True):
         if variants:
             res += [spec("cpp", "cpp/c++17", {}, sanitize, std="c++17", frac=f),
                     spec("cpp", "cpp/c++17-pmr", {}, sanitize, std="c++17-pmr", frac=f),
-                    spec("cpp", "cpp/c++20+little+asserts", {"target_endianness": "little", "enable_serialization_asserts": True}, sanitize, std="c++20", frac=f)]
+                    spec("cpp", "cpp/c++20+little+asserts", {"target_endianness": "little", "enable_serialization_asserts": True}, sanitize, std="c++20", frac=f),
+                    spec("cpp", "cpp/c++14+custom-vla", CUSTOM_VLA_OPTIONS, sanitize, std="c++14", frac=f, files={"vf_vec.hpp": CUSTOM_VLA_HEADER})]
     return res
 
 
